@@ -506,7 +506,11 @@ def run(tier: str) -> int:
                     nm = next(names, None)
                     if nm is not None:
                         hk = [gen.rand_node(rng, 1, leaves=("text", "html")) for _ in range(rng.randint(0, 2))]
-                        kids.append(("dep", rand_info(rng, name=nm), rng.random() < 0.7, hk))
+                        if rng.random() < 0.3:
+                            # a dependency inside the head (directly or below a tag): invisible in the head's markup in every mode
+                            inner = ("dep", rand_info(rng, name="in-" + nm, tame=True), False, [])
+                            hk.insert(rng.randint(0, len(hk)), inner if rng.random() < 0.5 else ("tag", "link", True, [("href", ("p", "i.css"))], [inner]))
+                        kids.append(("dep", rand_info(rng, name=nm), True if any(k[0] in ("dep", "tag") for k in hk) else rng.random() < 0.7, hk))
                         continue
                 if r < 0.6 and depth > 0:
                     kids.append(tree(depth - 1))
